@@ -42,7 +42,11 @@ class Executor(object):
         self.viol = []          # (clause, message, key)
         self.fs = fs
         data, _i, _l = encode_file(fs)
-        self.ex = expected_content(fs)
+        if fs.get('_kind') == 'daqmx':
+            from props.C03 import DaqEx
+            self.ex = DaqEx(fs)
+        else:
+            self.ex = expected_content(fs)
         self.chans = [p for p in self.ex.channel_paths()]
         self.stream = RecordingStream(data)
         self.tf = None
@@ -130,7 +134,8 @@ class Executor(object):
                     return
                 o = op[2] % (n + 3)
                 l = None if op[3] is None else op[3] % (n + 3)
-                got = ch.read_data(o, l, scaled=bool(op[4]))
+                scaled = bool(op[4]) or bool(self.ex.objects[p].get('skip_unscaled'))
+                got = ch.read_data(o, l, scaled=scaled)
                 want = slice_vals(t, vals, slice(o, None if l is None else o + l))
                 msgs = compare_values(t, want, got, '%s.read_data(%d,%r)' % (p, o, l), True)
                 if msgs:
@@ -258,7 +263,7 @@ def check(case, rec):
         exe.apply(op)
     exe.finish()
     rec.nontrivial(exe.nt)
-    rec.label(*S.spec_classes(case['fs']))
+    rec.label(*(S.spec_classes(case['fs']) if case['fs'].get('_kind') != 'daqmx' else ['daqmx']))
     rec.stat('ops', len(case['ops']))
     rec.stat('iterators', len(exe.iters))
     kinds = set(op[0] for op in case['ops'])
@@ -299,6 +304,11 @@ _long_strategy = S.file_spec(min_segments=101, max_segments=130, max_channels=3,
                              props=False, pad=False, nodata_entries=False, names='simple', max_groups=1,
                              types=['i16', 'f64', 'str', 'u8'], absent=False)
 _twin_strategy = S.twin_long_file()
+
+
+def _daqmx_strategy():
+    from vf.daqmx import daqmx_file
+    return daqmx_file(max_len=4, max_chunks=3).map(lambda fs: dict(fs, _kind='daqmx'))
 _small = st.integers(0, 10 ** 4)
 _opt = st.one_of(st.none(), _small)
 
@@ -363,7 +373,7 @@ def make_machine(rec, file_strategy, steps):
             case = {'fs': self.fs, 'ops': self.ops}
             rec.begin(case)
             rec.nontrivial(self.exe.nt)
-            rec.label(*S.spec_classes(self.fs))
+            rec.label(*(S.spec_classes(self.fs) if self.fs.get('_kind') != 'daqmx' else ['daqmx']))
             rec.stat('ops', len(self.ops))
             rec.stat('iterators', len(self.exe.iters))
             for k in set(op[0] for op in self.ops):
@@ -394,7 +404,9 @@ def jobs(tier):
     if tier == 'quick':
         return [Job('histories', 'custom', _run_machines(6000, _file_strategy, 30)),
                 Job('long_file_histories', 'custom', _run_machines(48, _long_strategy, 20)),
-                Job('twin_offset_table_histories', 'custom', _run_machines(64, _twin_strategy, 20))]
+                Job('twin_offset_table_histories', 'custom', _run_machines(64, _twin_strategy, 20)),
+                Job('daqmx_histories', 'custom', _run_machines(800, _daqmx_strategy(), 25))]
     return [Job('histories', 'custom', _run_machines(150000, _file_strategy, 50)),
             Job('long_file_histories', 'custom', _run_machines(3000, _long_strategy, 40)),
-            Job('twin_offset_table_histories', 'custom', _run_machines(3000, _twin_strategy, 40))]
+            Job('twin_offset_table_histories', 'custom', _run_machines(3000, _twin_strategy, 40)),
+            Job('daqmx_histories', 'custom', _run_machines(30000, _daqmx_strategy(), 40))]
